@@ -593,10 +593,16 @@ func contextRequests(r *lib.Report) int64 {
 							}
 						}
 					}
-					h := network.NewSimpleHTTPWithClientAndInterceptors(&http.Client{Transport: roundTripFunc(func(req *http.Request) (*http.Response, error) {
-						log = append(log, "T")
-						return &http.Response{StatusCode: 200, Status: "200 OK", Proto: "HTTP/1.1", ProtoMajor: 1, ProtoMinor: 1, Header: http.Header{}, Body: http.NoBody, Request: req}, nil
-					})}, ics...)
+					var h *network.SimpleHTTPDef
+					if p := lib.Catch(func() {
+						h = network.NewSimpleHTTPWithClientAndInterceptors(&http.Client{Transport: roundTripFunc(func(req *http.Request) (*http.Response, error) {
+							log = append(log, "T")
+							return &http.Response{StatusCode: 200, Status: "200 OK", Proto: "HTTP/1.1", ProtoMajor: 1, ProtoMinor: 1, Header: http.Header{}, Body: http.NoBody, Request: req}, nil
+						})}, ics...)
+					}); p != "" {
+						r.Violation("C18|context|constructor-panic", "NewSimpleHTTPWithClientAndInterceptors with a client whose transport is a function value: "+p, nil)
+						return n
+					}
 					ctx := context.Background()
 					switch state {
 					case "live":
@@ -690,11 +696,17 @@ func lateBound(r *lib.Report) int64 {
 			ptrs = append(ptrs[:pos], append([]*network.Interceptor{&late}, ptrs[pos:]...)...)
 			names = append(names[:pos], append([]string{"late"}, names[pos:]...)...)
 			var hdr []string
-			h := network.NewSimpleHTTPWithClientAndInterceptors(&http.Client{Transport: roundTripFunc(func(req *http.Request) (*http.Response, error) {
-				log = append(log, "T")
-				hdr = append([]string{}, req.Header["X-Seen"]...)
-				return &http.Response{StatusCode: 200, Status: "200 OK", Proto: "HTTP/1.1", ProtoMajor: 1, ProtoMinor: 1, Header: http.Header{}, Body: http.NoBody, Request: req}, nil
-			})})
+			var h *network.SimpleHTTPDef
+			if p := lib.Catch(func() {
+				h = network.NewSimpleHTTPWithClientAndInterceptors(&http.Client{Transport: roundTripFunc(func(req *http.Request) (*http.Response, error) {
+					log = append(log, "T")
+					hdr = append([]string{}, req.Header["X-Seen"]...)
+					return &http.Response{StatusCode: 200, Status: "200 OK", Proto: "HTTP/1.1", ProtoMajor: 1, ProtoMinor: 1, Header: http.Header{}, Body: http.NoBody, Request: req}, nil
+				})})
+			}); p != "" {
+				r.Violation("C18|late-bound|constructor-panic", "NewSimpleHTTPWithClientAndInterceptors with a client whose transport is a function value: "+p, nil)
+				return n
+			}
 			fail := ""
 			p := lib.Catch(func() {
 				h.AddInterceptor(ptrs...)
@@ -748,6 +760,7 @@ func (f roundTripFunc) RoundTrip(req *http.Request) (*http.Response, error) { re
 
 func main() {
 	r := lib.NewReport("C18")
+	defer r.Guard()
 	all := ops()
 	depth := 4
 	if r.Tier == "thorough" {
